@@ -73,7 +73,7 @@ theorem unshift_idem (m : Nat) : unshift (unshift m) = unshift m := by
 theorem matchSpec_core {u : Uni} {k : Key} {key : Int} {m : Nat} (h : matchSpec u k key m) :
     andNot k.mods weakMask = andNot m weakMask := by
   rw [← unshift_strip, ← unshift_strip]
-  rcases h with ⟨_, h⟩ | ⟨_, h⟩ | ⟨_, h⟩ | ⟨_, h⟩ | ⟨_, _, _, h⟩ | ⟨_, _, _, h⟩
+  rcases h with ⟨_, h⟩ | ⟨_, h⟩ | ⟨_, h⟩ | ⟨_, h⟩ | ⟨_, _, _, h⟩ | ⟨_, _, _, _, h⟩
   · rw [h]
   · rw [h]
   · rw [h, unshift_idem]
